@@ -242,6 +242,20 @@ class C07(Check):
             "coalesce": rng.choice([0.0, 0.0, 0.5]),
             "gap": rng.choice([[0.0, 0.0], [0.0, 0.002], [0.001, 0.004]]),
         }
+        rng9 = rng_for(seed, "C07-straddle", index)
+        if index >= 400 and rng9.random() < 0.04:
+            # a frame whose parts arrive 0.2 s apart after the connection has been idle for about I seconds, I around the values of
+            # the protocol's timers (same stratum as in C06): no timer of the client may fire between the parts of a frame
+            idle = rng9.choice([0.05, 0.5, 1.0, 3.0, 5.0, 10.0])
+            plan["uri"]["ack_timeout"] = 1000
+            plan["reactions"] = [[{"f": "ack", "d": 0.0, "join": False}, {"f": "data", "tag": new_tag(), "len": 2, "d": 0.0, "join": False}]]
+            plan["ops"] = [{"op": "write", "data": reqs[0], "timeout": None}, {"op": "read", "timeout": 2.0}, {"op": "read", "timeout": idle + 3.0}]
+            plan["unsolicited"] = [{"at": round(idle + rng9.choice([-0.1, 0.1, 0.3]), 3), "frames": [{"f": "data", "tag": new_tag(), "len": 40, "d": 0.0, "join": False}]}]
+            plan["net"]["segment"] = "random"
+            plan["net"]["max_parts"] = rng9.choice([2, 3])
+            plan["net"]["gap"] = [0.2, 0.2]
+            plan["net"]["coalesce"] = 0.0
+            plan["straddle"] = idle
         return plan
 
     def simplify(self, plan: dict[str, Any]) -> Any:
@@ -346,6 +360,8 @@ class C07(Check):
             shape.append(f"{e['cls']}@{ph}")
         outs = [f"{op['op'][0]}:{op['end']['out'] if op['end'] else 'hung'}" for op in ops]
         seg = plan["net"]["segment"]
+        if plan.get("straddle"):
+            bump(res["probes"], "frame_in_parts_0.2s_apart_after_an_idle_period_around_a_timer_value")
         res["shape"] = ",".join(shape) + "|" + ",".join(outs) + "|" + (seg if isinstance(seg, str) else "split")
         nt = any(e["cls"] not in ("ack", "data_t") for e in gw.sent) or any(op["end"] and op["end"]["out"] != "ok" for op in ops if not op["arg"].get("drain"))
         res["nontrivial"] = bool(nt or holder["net"].counters.get("segmented_writes"))
